@@ -1,5 +1,5 @@
 From SV Require Import Base.ListX Store.Masked World.Env World.Join World.JoinProps World.JoinAbs World.JoinRefine
-  World.JoinAbsProps World.EnvSim World.JoinNoStuck World.Simulation
+  World.JoinAbsProps World.EnvSim World.JoinNoStuck World.Simulation World.JoinMask
   Bits.Hibit Bits.HibitIter Bits.HibitOrder Bits.HibitSet Bits.HibitExpr Bits.HibitOps.
 From Coq Require Import Sorting.Sorted.
 From SV Require Import Props.C06.
@@ -98,3 +98,6 @@ Check (C06_bitset_iteration_is_the_ascending_element_list : forall s m, represen
 Check (C06_mask_iteration_yields_exactly_the_members_in_index_order : forall g P, exact g P ->
   exists out, drain_iter g (S (weight (fresh g))) (fresh g) = Some out /\
               StronglySorted N.lt out /\ forall x, In x out <-> P x).
+Check (C06_the_layer_walk_over_a_joins_mask_yields_the_models_keys : forall e eids ms keys g,
+  jkeys e eids ms = Some keys -> exact g (fun i => forall m, In m ms -> m_has e eids m i = true) ->
+  drain_iter g (S (weight (fresh g))) (fresh g) = Some keys).
